@@ -284,6 +284,28 @@ declarations:
   - decl: void draw(double b)
   - decl: int sides() const
     cpp_if: ifdef HAVE_OPT
+  - decl: static int instances()
+    cpp_if: ifdef HAVE_OPT
+  - decl: static int made()
+  - decl: int scaled(int a, int k = 2) const
+    cpp_if: ifdef HAVE_OPT
+  - decl: void resize(double f)
+    cpp_if: ifdef HAVE_OPT
+    fortran_generic:
+    - decl: (float f)
+    - decl: (double f)
+- decl: int plus(int a, int k = 2)
+  cpp_if: ifdef HAVE_OPT
+- decl: double half(double f)
+  cpp_if: ifdef HAVE_OPT
+  fortran_generic:
+  - decl: (float f)
+  - decl: (double f)
+- decl: template<typename T> T same(T a)
+  cpp_if: ifdef HAVE_OPT
+  cxx_template:
+  - instantiation: <int>
+  - instantiation: <double>
 - decl: class Gated
   cpp_if: ifdef HAVE_OPT
   declarations:
@@ -304,11 +326,14 @@ declarations:
 void over(int a);
 void over(const std::string &a);
 int only_opt(int n);
+int plus(int a, int k = 2);
+double half(double f);
+template<typename T> T same(T a) { return a; }
 #endif
 void over(double a);
-class Shape { public: Shape(); ~Shape(); void draw(double b); int v;
+class Shape { public: Shape(); ~Shape(); void draw(double b); int v; static int made();
 #ifdef HAVE_OPT
-  void draw(int a); int sides() const;
+  void draw(int a); int sides() const; static int instances(); int scaled(int a, int k = 2) const; void resize(double f);
 #endif
 };
 #ifdef HAVE_OPT
@@ -329,11 +354,14 @@ void over(const std::string &a) { (void)a; }
 int only_opt(int n) { return n; }
 void Shape::draw(int a) { v = a; }
 int Shape::sides() const { return v; }
+int Shape::instances() { return 1; } int Shape::scaled(int a, int k) const { return a * k; } void Shape::resize(double f) { v = (int)f; }
+int plus(int a, int k) { return a + k; }
+double half(double f) { return f / 2; }
 Gated::Gated() {} Gated::~Gated() {} bool Gated::open(bool how) const { return how; }
 namespace inner { double thrice(double x) { return 3 * x; } }
 #endif
 void over(double a) { (void)a; }
-Shape::Shape() : v(0) {} Shape::~Shape() {} void Shape::draw(double b) { v = (int)b; }
+Shape::Shape() : v(0) {} Shape::~Shape() {} void Shape::draw(double b) { v = (int)b; } int Shape::made() { return 2; }
 namespace inner { double twice(double x) { return 2 * x; } }
 """,
 }
@@ -424,16 +452,22 @@ def explore(c, tier):
     def one(i):
         with common.scratch("c05-") as d:
             res = libgen.build(d, uniq[i])
-        if res["shroud_rc"] != 0 and uniq[i]["opts"].get("F_CFI"):
+        causes = sorted({libgen.known_cause(uniq[i], f) for f in uniq[i]["funcs"]} - {None})
+        if res["shroud_rc"] != 0 and causes:
             # Shroud stopped: report that, then build the rest of the library without the functions of the
-            # recorded finding so that one failure does not hide the others
-            rest = libgen.without_cfi_conflict(uniq[i])
-            if rest["funcs"] and len(rest["funcs"]) < len(uniq[i]["funcs"]):
+            # recorded findings (one kind after the other) so that one failure does not hide the others
+            dropped = []
+            for cause in causes:
+                dropped.append(cause)
+                rest = libgen.without_cfi_conflict(uniq[i], dropped)
+                if not rest["funcs"]:
+                    break
                 with common.scratch("c05-") as d:
                     res2 = libgen.build(d, rest)
-                res2["problems"] = res["problems"] + res2["problems"]
-                res2["retried_without_cfi_conflict"] = True
-                return i, res2
+                if res2["shroud_rc"] == 0 or cause == causes[-1]:
+                    res2["problems"] = res["problems"] + res2["problems"]
+                    res2["retried_without"] = cause if res2["shroud_rc"] == 0 else None
+                    return i, res2
         return i, res
     with cf.ThreadPoolExecutor(max(2, common.NCPU // 2)) as ex:
         for i, res in ex.map(one, range(len(uniq))):
@@ -453,8 +487,8 @@ def explore(c, tier):
             # character/string argument or result gets only the CFI clone.  It is recognised by its cause -- every
             # function the diagnostic names (or, when Shroud itself stops, some function of the library) combines
             # a string with a vector argument / pointer result with extent -- not by the compiler's wording.
-            if lib["opts"].get("F_CFI"):
-                confl = {i for i, f in enumerate(lib["funcs"], 1) if libgen.cfi_conflict(f)}
+            cause_of = {i: libgen.known_cause(lib, f) for i, f in enumerate(lib["funcs"], 1)}
+            if any(cause_of.values()):
                 names = {}
                 nm = {}
                 for i, f in enumerate(lib["funcs"], 1):
@@ -463,11 +497,13 @@ def explore(c, tier):
                 import re as _re
                 mentioned = set(_re.findall(r"\b(?:SUB_)?(?:ns1_)?(g\d+)(?:_\w+)?\(", txt)) | \
                     set(_re.findall(r"\[in procedure (?:c_)?(g\d+)\w*\]", txt if stage == "compile-fortran" else ""))
-                if stage == "shroud" and confl and res.get("retried_without_cfi_conflict"):
-                    key = "cfi-clone-only:shroud"
-                elif stage in ("compile", "compile-fortran") and mentioned and \
-                        all(names.get(m, set()) & confl for m in mentioned):
-                    key = "cfi-clone-only:" + stage
+                if stage == "shroud" and res.get("retried_without"):
+                    key = res["retried_without"] + ":shroud"
+                elif stage in ("compile", "compile-fortran") and mentioned:
+                    cs = [{cause_of[i] for i in names.get(m, set())} - {None} for m in mentioned]
+                    common_cause = set.intersection(*cs) if all(cs) else set()
+                    if common_cause:
+                        key = sorted(common_cause)[0] + ":" + stage
             c.violation(key, "generated file %s fails at %s: %s" % (fn, stage, txt.strip()[:400]),
                         {"library": lib, "stage": stage, "file": fn, "diagnostic": txt})
         if res["trace"]:
